@@ -9,6 +9,7 @@ import (
 	"testing"
 	"time"
 
+	"github.com/fabiolb/fabio/config"
 	"github.com/fabiolb/fabio/metrics"
 	"github.com/fabiolb/fabio/zzverif/ev"
 )
@@ -19,7 +20,7 @@ import (
 
 var c02Weights = []string{"", "0", "0.3", "1", "2", "-1", "-0.3", "-0.8", "-1e308", "Inf", "+Inf", "-Inf", "NaN", "1e308", "1.7976931348623157e308", "1e-320", "5e-324", "1e400", "0x1p-1074", "abc", "1e-7", "9999999"}
 var c02Paths = []string{"/", "/a", "/[", "/{a", "**", "/a/*", "/[a-", "/\\", "/a{", "/*b{"}
-var c02Dsts = []string{"http://10.0.0.1:80/", "http://[::1/", "%zz", "http://h/%zz", "tcp://:80", "://", "https://h$path"}
+var c02Dsts = []string{"localhost:8080", "/moved", "10.0.0.1", "tcp:10.0.0.1:5000", "http://10.0.0.1:80/", "http://[::1/", "%zz", "http://h/%zz", "tcp://:80", "://", "https://h$path"}
 var c02Opts = []string{"", "redirect=abc", "redirect=999", "redirect=301", "allow=ip:x", "allow=ip:10.0.0.0/33", "deny=ip:1.2.3.4", "strip=/a", "host=dst", "proto=https host=x", "allow", "=", "auth=nope", "allow=ip:10.0.0.0/8 deny=ip:1.1.1.1"}
 
 // c02Exercise runs one text under a watchdog: a build or lookup that does not
@@ -123,12 +124,19 @@ func panicClass(msg string) string {
 
 func TestVerifC02Text(t *testing.T) {
 	L := ev.Begin("C02", "c02-text", "exploration",
-		"config texts: (a) 1..3 targets on one route with every combination of 19 weight spellings (non-finite, huge, denormal, hex, junk) x 10 paths (bad globs, globs with a brace that is never closed); (b) dst x opts x weight; (c) `route weight` with every weight over 1-2 matching targets; (d) junk lines, bytes that are not UTF-8 in every field; each through NewTable then 270 lookups (3 matchers x 2 pickers x hosts x paths) + String + Dump, with the prometheus metrics provider installed and one observation per looked-up target; (e) the same definitions through NewTableCustom incl. nil/null/empty JSON. oracle: (table,nil) or (nil,err), never a panic. non-trivial = text accepted as a table")
+		"config texts: (a) 1..3 targets on one route with every combination of 19 weight spellings (non-finite, huge, denormal, hex, junk) x 10 paths (bad globs, globs with a brace that is never closed); (b) dst x opts x weight; (c) `route weight` with every weight over 1-2 matching targets; (d) junk lines, bytes that are not UTF-8 in every field; each through NewTable then 270 lookups (3 matchers x 2 pickers x hosts x paths) + String + Dump, with the prometheus and statsd_raw metrics providers installed and one observation per looked-up target; (e) the same definitions through NewTableCustom incl. nil/null/empty JSON. oracle: (table,nil) or (nil,err), never a panic. non-trivial = text accepted as a table")
 	type job struct {
 		text string
 	}
 	// the metrics provider whose labels are checked at observation time (what fabio runs with under metrics.target=prometheus)
-	SetMetricsProvider(metrics.NewPromProvider("verifc02", "", nil))
+	// ... together with a flat one (statsd_raw: names built from a template over service, host, path and target URL;
+	// nothing listens on the UDP address, the first flush is an hour away)
+	defCfg := config.Metrics{Target: "prometheus,statsd_raw", Prefix: "verifc02", Names: "{{clean .Service}}.{{clean .Host}}.{{clean .Path}}.{{clean .TargetURL.Host}}", Interval: time.Hour, StatsDAddr: "127.0.0.1:18125"}
+	mp, merr := metrics.Initialize(&defCfg)
+	if merr != nil {
+		panic("VERIF-INFRA: " + merr.Error())
+	}
+	SetMetricsProvider(mp)
 	var jobs []string
 	// (a)
 	maxT := 2
